@@ -152,9 +152,11 @@ def oracle_c16(impl_lines):
                     k = t[1]
                     if t[2] == "new":
                         cv[k] = {"w": int(t[3]), "h": int(t[4]), "grid": {}}
-                    elif t[2] == "copy":
+                    elif t[2] in ("copy", "assign", "move"):
                         src = cv[t[3]]
                         cv[k] = {"w": src["w"], "h": src["h"], "grid": dict(src["grid"])}    # handles are not copied
+                        if t[2] == "move":
+                            del cv[t[3]]
                     elif t[2] == "set":
                         cv[k]["grid"][(int(t[3]), int(t[4]))] = " ".join(t[5:])
                     elif t[2] == "fill":
@@ -694,8 +696,10 @@ def oracle_strobj(impl_lines):
                         st[k] = elems(t, 4, 1) * int(t[3])
                     elif op in ("range", "ilist"):
                         st[k] = elems(t, 4, int(t[3]))
-                    elif op == "copy":
+                    elif op in ("copy", "assign"):
                         st[k] = list(st[t[3]])
+                    elif op == "move":
+                        st[k] = list(st[t[3]]); del st[t[3]]
                     elif op == "appendelem":
                         st[k] = st[k] + elems(t, 3, 1)
                     elif op == "append":
